@@ -1385,9 +1385,52 @@ func sysOtherExt(a string) string {
 	return m[1] + "+zz9@" + m[3]
 }
 
-func (e *sysEnv) smtpOp(r *rand.Rand) {
+func (e *sysEnv) smtpOp(r *rand.Rand) { e.smtpOpFav(r, "") }
+
+// churnOp: a mailbox that holds mail loses one message through REST — mostly its NEWEST — and then receives mail again.  Under a cap the
+// mailbox is then below its cap with ids that are no longer contiguous: the delivery must add exactly one message and evict nothing
+// (C01: the recipient's mailbox gains the message, nothing else changes; C08: only what is necessary).
+func (e *sysEnv) churnOp(r *rand.Rand) {
 	s := e.s
-	g := &smtpGen{r: r, env: s.env, errRate: 8}
+	var cands []string
+	for _, b := range s.boxes {
+		if _, ok := s.addrOf[b]; ok && sysRestSafe(b) {
+			if ms, _ := s.store.GetMessages(b); len(ms) > 0 {
+				cands = append(cands, b)
+			}
+		}
+	}
+	if len(cands) == 0 {
+		e.smtpOp(r)
+		return
+	}
+	box := cands[r.Intn(len(cands))]
+	e.c.H("op:churn")
+	for k, n := 0, 1+r.Intn(3); k < n && !s.bad; k++ {
+		e.smtpOpFav(r, s.addrOf[box])
+	}
+	if ms, _ := s.store.GetMessages(box); len(ms) > 0 && !s.bad {
+		id := ms[len(ms)-1].ID()
+		if r.Intn(3) == 0 {
+			id = ms[r.Intn(len(ms))].ID()
+		}
+		e.restOp("MailboxDeleteV1", "DELETE", box, id, "", "")
+	}
+	if !s.bad {
+		e.smtpOpFav(r, s.addrOf[box])
+	}
+}
+
+func (e *sysEnv) smtpOpFav(r *rand.Rand, fav string) {
+	s := e.s
+	g := &smtpGen{r: r, env: s.env, errRate: 8, favour: fav}
+	before := map[string][]string{} // every mailbox's listing before the connection (operations of a scenario do not overlap)
+	_ = s.store.VisitMailboxes(func(ms []storage.Message) bool {
+		for _, m := range ms {
+			before[m.Mailbox()] = append(before[m.Mailbox()], m.ID())
+		}
+		return true
+	})
 	if s.maxkb > 0 && r.Intn(2) == 0 {
 		g.bigBody = true // messages of 1-3 KB: evictions by the byte limit, also of the message being delivered
 	}
@@ -1510,6 +1553,45 @@ func (e *sysEnv) smtpOp(r *rand.Rand) {
 		}
 	}
 	e.bounds("the SMTP connection")
+	// ---- implementation only: a delivery takes from a mailbox only what its cap requires — the oldest messages, and only as many as the
+	// mailbox is over its cap (C01: the recipient's mailbox gains the message and nothing else changes; C08: only what is necessary)
+	if s.maxkb == 0 {
+		storedIn, goneIn := map[string][]string{}, map[string][]string{}
+		for _, ev := range seg {
+			if ev.kind == 's' {
+				storedIn[ev.box] = append(storedIn[ev.box], ev.id)
+			} else {
+				goneIn[ev.box] = append(goneIn[ev.box], ev.id)
+			}
+		}
+		for box, g := range goneIn {
+			all := append(append([]string{}, before[box]...), storedIn[box]...)
+			wantG := 0
+			if s.cap > 0 && len(all) > s.cap {
+				wantG = len(all) - s.cap
+			}
+			if len(g) != wantG {
+				e.fail("delivery-evicts-only-over-cap", fmt.Sprintf("mailbox %q listed %d message(s) %v before the connection and received %d (cap %d): %d message(s) had to make room, %d were announced deleted %v", box, len(before[box]), before[box], len(storedIn[box]), s.cap, wantG, len(g), g), "")
+				continue
+			}
+			oldest := map[string]bool{}
+			for _, id := range all[:wantG] {
+				oldest[id] = true
+			}
+			for _, id := range g {
+				if !oldest[id] {
+					e.fail("delivery-evicts-only-over-cap", fmt.Sprintf("mailbox %q (cap %d): message %s was evicted although it is not among the %d oldest of %v", box, s.cap, id, wantG, all), "")
+				}
+			}
+		}
+		if s.cap > 0 {
+			for box, st := range storedIn {
+				if over := len(before[box]) + len(st) - s.cap; over > 0 && len(goneIn[box]) == 0 {
+					e.fail("delivery-evicts-only-over-cap", fmt.Sprintf("mailbox %q listed %d message(s) before the connection and received %d (cap %d) but nothing was announced deleted", box, len(before[box]), len(st), s.cap), "")
+				}
+			}
+		}
+	}
 	// ---- implementation only: fetchable under every spelling, same through POP3
 	if len(fetches) > 0 {
 		f := fetches[r.Intn(len(fetches))]
@@ -1842,7 +1924,7 @@ func (e *sysEnv) build(r *rand.Rand, n int) bool {
 	e.s = s
 	s.naming = []string{"local", "local", "full", "domain"}[r.Intn(4)]
 	s.backend = []string{"mem", "file"}[n%2]
-	s.cap = []int{0, 0, 2}[r.Intn(3)]
+	s.cap = []int{0, 0, 2, 0, 1, 3}[r.Intn(6)]
 	if s.backend == "mem" {
 		s.maxkb = []int{0, 0, 1, 2}[r.Intn(4)]
 	}
@@ -2005,8 +2087,10 @@ func (e *sysEnv) scenario(n int) {
 	nOps := 8 + r.Intn(15)
 	for i := 0; i < nOps && !s.bad; i++ {
 		switch x := r.Intn(100); {
-		case x < 34:
+		case x < 28:
 			e.smtpOp(r)
+		case x < 34:
+			e.churnOp(r)
 		case x < 50:
 			e.popOp(r)
 		case x < 82:
